@@ -153,6 +153,40 @@ func init() {
 	},
 	// vhSymbolic() bool : true under the engine, false natively
 		"vhSymbolic": func(c *CallCtx) { c.Return(True) },
+		// vhConstInt(name) constant.Value: an untyped integer constant of arbitrary size (|c| < 2^130), exact (SMT Int)
+		"vhConstInt": func(c *CallCtx) {
+			z := c.ex.input(c.st, "bigint", strArg(c.args[0]), IntSort)
+			lim := "1361129467683753853853498429727072845824" // 2^130
+			c.st.addPC(&Term{Sort: BoolSort, S: fmt.Sprintf("(and (< (- %s) %s) (< %s %s))", lim, z.S, z.S, lim), size: 3})
+			c.Return(Iface{T: constIntModelType, V: z})
+		},
+		// vhConstToF64(v): the constant rounded to nearest even float64 (what Go's conversion yields)
+		"vhConstToF64": func(c *CallCtx) {
+			z := c.args[0].(Iface).V.(*Term)
+			c.Return(c.ex.constToFloat(c.st, z, 64))
+		},
+		"vhConstToF32": func(c *CallCtx) {
+			z := c.args[0].(Iface).V.(*Term)
+			c.Return(c.ex.constToFloat(c.st, z, 32))
+		},
+		// vhConstFits(v, lo, hi): lo <= c <= hi for int64 lo and uint64 hi
+		"vhConstFits": func(c *CallCtx) {
+			z := c.args[0].(Iface).V.(*Term)
+			lo, hi := c.args[1].(*Term), c.args[2].(*Term)
+			if !lo.Const || !hi.Const {
+				unsupported("vhConstFits needs constant bounds")
+			}
+			los := fmt.Sprintf("%d", int64(lo.U))
+			if int64(lo.U) < 0 {
+				los = fmt.Sprintf("(- %d)", uint64(-int64(lo.U)))
+			}
+			c.Return(&Term{Sort: BoolSort, S: fmt.Sprintf("(and (<= %s %s) (<= %s %d))", los, z.S, z.S, hi.U), size: 4})
+		},
+		// vhConstLow64(v): the low 64 bits of the constant (two's complement)
+		"vhConstLow64": func(c *CallCtx) {
+			z := c.args[0].(Iface).V.(*Term)
+			c.Return(app(BVSort(64), "(_ int2bv 64)", z))
+		},
 	}
 }
 
@@ -185,6 +219,41 @@ func (ex *Exec) nameTerm(st *State, t *Term, hint string) *Term {
 	v := ex.fresh(t.Sort, hint)
 	st.addPC(Eq(v, t))
 	return v
+}
+
+// constToFloat: the float nearest to the exact integer z, as an abstract symbol constrained by the contract of
+// round-to-nearest (exact agreement with the machine conversion inside the 64-bit ranges, monotone outside):
+// the solver never has to reason about Int -> Real -> FP conversions, which z3 cannot decide reliably.
+func (ex *Exec) constToFloat(st *State, z *Term, bits int) *Term {
+	key := fmt.Sprintf("%d:%s", bits, z.S)
+	if ex.constFloats == nil {
+		ex.constFloats = map[string]*Term{}
+	}
+	if f, ok := ex.constFloats[key]; ok {
+		return f
+	}
+	sort := F64Sort
+	if bits == 32 {
+		sort = F32Sort
+	}
+	f := ex.fresh(sort, "constfloat")
+	ex.constFloats[key] = f
+	low := app(BVSort(64), "(_ int2bv 64)", z)
+	inI64 := &Term{Sort: BoolSort, S: fmt.Sprintf("(and (<= (- 9223372036854775808) %s) (< %s 9223372036854775808))", z.S, z.S), size: 4}
+	inU64 := &Term{Sort: BoolSort, S: fmt.Sprintf("(and (<= 0 %s) (< %s 18446744073709551616))", z.S, z.S), size: 4}
+	big := &Term{Sort: BoolSort, S: fmt.Sprintf("(>= %s 18446744073709551616)", z.S), size: 2}
+	small := &Term{Sort: BoolSort, S: fmt.Sprintf("(< %s (- 9223372036854775808))", z.S), size: 2}
+	st.addPC(Implies(inI64, Eq(f, IntToFP(low, true, bits))))
+	st.addPC(Implies(inU64, Eq(f, IntToFP(low, false, bits))))
+	var two64, mtwo63 *Term
+	if bits == 32 {
+		two64, mtwo63 = F32C(18446744073709551616.0), F32C(-9223372036854775808.0)
+	} else {
+		two64, mtwo63 = F64C(18446744073709551616.0), F64C(-9223372036854775808.0)
+	}
+	st.addPC(Implies(big, fpCmp("fp.geq", f, two64)))
+	st.addPC(Implies(small, fpCmp("fp.leq", f, mtwo63)))
+	return f
 }
 
 // freshStr: an unconstrained symbolic string (canonical in the bounded representation).
@@ -304,6 +373,8 @@ func errorValue(kind string) Value {
 	return Iface{T: compileErrorType, V: StrC(kind)}
 }
 
+// constIntModelType: dynamic type of a go/constant.Value holding an exact integer (model of constant.int64Val / intVal)
+var constIntModelType = types.NewNamed(types.NewTypeName(0, nil, "constant.intModel", nil), types.NewStruct(nil, nil), nil)
 var errorPtrType = types.NewPointer(types.NewNamed(types.NewTypeName(0, nil, "errors.errorString", nil), types.NewStruct(nil, nil), nil))
 var compileErrorType = types.NewNamed(types.NewTypeName(0, nil, "gomacro.CompileError", nil), types.NewStruct(nil, nil), nil)
 
@@ -485,6 +556,39 @@ func libStubs() map[string]StubFn {
 		hi := bvBin("bvsub", n, t)
 		lo, hi = c.ex.nameTerm(c.st, lo, "lo"), c.ex.nameTerm(c.st, hi, "hi")
 		c.Return(c.ex.nameTerm(c.st, Ite(allSpace, StrC(""), StrSub(s, lo, hi)), "trimmed"))
+	}
+	// ---- go/constant on integer constants: exact arithmetic (package documentation restated) ----
+	constInt := func(v Value) *Term {
+		i, ok := v.(Iface)
+		if !ok || i.T != constIntModelType {
+			unsupported("go/constant operation on a value that is not a modelled integer constant")
+		}
+		return i.V.(*Term)
+	}
+	two63, two64 := "9223372036854775808", "18446744073709551616"
+	m["go/constant.Int64Val"] = func(c *CallCtx) {
+		z := constInt(c.args[0])
+		exact := &Term{Sort: BoolSort, S: fmt.Sprintf("(and (<= (- %s) %s) (< %s %s))", two63, z.S, z.S, two63), size: 4}
+		c.Return(Tuple{app(BVSort(64), "(_ int2bv 64)", z), exact})
+	}
+	m["go/constant.Uint64Val"] = func(c *CallCtx) {
+		z := constInt(c.args[0])
+		exact := &Term{Sort: BoolSort, S: fmt.Sprintf("(and (<= 0 %s) (< %s %s))", z.S, z.S, two64), size: 4}
+		c.Return(Tuple{app(BVSort(64), "(_ int2bv 64)", z), exact})
+	}
+	m["go/constant.Float64Val"] = func(c *CallCtx) {
+		z := constInt(c.args[0])
+		c.Return(Tuple{c.ex.constToFloat(c.st, z, 64), c.ex.fresh(BoolSort, "exact")})
+	}
+	m["go/constant.Sign"] = func(c *CallCtx) {
+		z := constInt(c.args[0])
+		neg := &Term{Sort: BoolSort, S: fmt.Sprintf("(< %s 0)", z.S), size: 2}
+		zero := &Term{Sort: BoolSort, S: fmt.Sprintf("(= %s 0)", z.S), size: 2}
+		c.Return(Ite(neg, BVC(64, ^uint64(0)), Ite(zero, BVC(64, 0), BVC(64, 1))))
+	}
+	m["invoke:go/constant.Value.Kind"] = func(c *CallCtx) {
+		constInt(c.args[0])
+		c.Return(BVC(64, 3)) // constant.Int
 	}
 	m["math.Float64bits"] = func(c *CallCtx) { c.Return(FPToBits(c.args[0].(*Term))) }
 	m["math.Float32bits"] = func(c *CallCtx) { c.Return(FPToBits(c.args[0].(*Term))) }
